@@ -2045,3 +2045,25 @@ package hermes
 //@   invariant last: more == valid
 //@ loop Input@"for ok := SCHLAG == g.PKT; ok; ok = SCHLAG == g.PKT && valid { SLFIND++"
 //@   invariant last: more == valid
+
+// C18  what a crop parameter reader stores: every overridable base parameter as the same function of the file's number
+// that OverwriteCropParameters applies to the number on the batch line (the root velocity is the file value / 200 in both),
+// and NOTHING beyond the listed fields (frame): a quantity derived from the parameters at read time that the override
+// does not re-derive (as it does for the total temperature sum) would make an overridden run differ from a run on the
+// edited file. Text parsing and yaml decoding are external (any numbers).
+//@ func ReadCropParamYml
+//@   serves C18
+//@   ensures base: g.MAXAMAX == cropParam.MAXAMAX && g.MINTMP == cropParam.MINTMP && g.WUMAXPF == cropParam.WUMAXPF && g.VELOC == cropParam.VELOC/200 && g.YIFAK == cropParam.YIFAK
+//@   modifies g.ASIP, g.BAS, g.BLUET, g.DAUERKULT, g.DAYL, g.DEAD, g.DEV, g.DLBAS, g.DOUBLE, g.DRYSWELL, g.ENDPRO, g.GEHOB, g.LAIFKT, g.LEGUM, g.LUKRIT, g.MAIRT, g.MAXAMAX, g.MINTMP, g.NGEFKT, g.NRKOM, g.PHYLLO, g.PRO, g.REIF, g.RGA, g.RGB, g.SUM, g.SubOrgan, g.TROOTSUM, g.TSUM, g.VELOC, g.VERNTAGE, g.VSCHWELL, g.WDORG, g.WGMAX, g.WORG, g.WUGEH, g.WUMAXPF, g.YIFAK, g.YORGAN, l.AboveGroundOrgans, l.ENDBBCH, l.NRENTW, l.kc, l.kcini, l.temptyp, l.tendsum, l.useBBCH
+//@ func ReadCropParamClassic
+//@   serves C18
+//@   ghost var fAmax real
+//@   ghost var fMintmp real
+//@   ghost var fWumaxpf real
+//@   ghost var fVeloc real
+//@   after call ValAsFloat#1: ghost fAmax = res0
+//@   after call ValAsFloat#2: ghost fMintmp = res0
+//@   after call ValAsFloat#3: ghost fWumaxpf = res0
+//@   after call ValAsFloat#4: ghost fVeloc = res0
+//@   ensures base: g.MAXAMAX == fAmax && g.MINTMP == fMintmp && g.WUMAXPF == fWumaxpf && g.VELOC == fVeloc/200
+//@   modifies g.ASIP, g.BAS, g.BLUET, g.DAUERKULT, g.DAYL, g.DEAD, g.DEV, g.DLBAS, g.DOUBLE, g.DRYSWELL, g.ENDPRO, g.GEHOB, g.LAIFKT, g.LEGUM, g.LUKRIT, g.MAIRT, g.MAXAMAX, g.MINTMP, g.NGEFKT, g.NRKOM, g.PHYLLO, g.PRO, g.REIF, g.RGA, g.RGB, g.SUM, g.SubOrgan, g.TROOTSUM, g.TSUM, g.VELOC, g.VERNTAGE, g.VSCHWELL, g.WDORG, g.WGMAX, g.WORG, g.WUGEH, g.WUMAXPF, g.YIFAK, g.YORGAN, l.AboveGroundOrgans, l.ENDBBCH, l.NRENTW, l.kc, l.kcini, l.temptyp, l.tendsum, l.useBBCH
